@@ -1933,6 +1933,10 @@ class FuncGetOutputString(ValueFunc):
 
     def execute(self, args, environment, pos):
         output = args.getOutput("output")
+        if not isinstance(output.output, StringOutput):
+            raise CklRuntimeError(
+                ValueString("ERROR"), "String output required", pos
+            )
         return ValueString(output.output.output)
 
 
